@@ -7,18 +7,22 @@ def run(tier, seed, replay=None):
     prayerday_mc(rep, "C08", ["StagedIsPure", "FajrIshaOnly", "InvalidKeepsValid", "IdentityWhenAllValid", "UnflaggedIsConventional"],
                  roundings="{0, 2}", fajr_offsets="{0, 90000}")
     # vacuity: the pre-fix unflagged interval-fallback Imsaak (D8) must violate the flag clause in the same model
-    cfg = write_cfg("C08legacy.cfg", {"LegacyUnwrap": "FALSE", "LegacyImsaak": "FALSE", "LegacyImsaakFlag": "TRUE", "LegacyLateInt": "FALSE", "Roundings": "{0}",
+    cfg = write_cfg("C08legacy.cfg", {"LegacyUnwrap": "FALSE", "LegacyImsaak": "FALSE", "LegacyImsaakFlag": "TRUE", "LegacyLateInt": "FALSE", "LegacyIntFlag": "FALSE", "Roundings": "{0}",
                                       "FajrOffsets": "{0}", "NegOffsets": "FALSE"}, ["UnflaggedIsConventional"])
     leg = tlc_must_fail("PrayerDay", cfg, expect="UnflaggedIsConventional", workers=6, heap="6g")
     rep.add_tlc(leg)
     # vacuity: the pre-fix order of adj_for_ext_lat (D9: intervals applied only after the policy, formerly the known
     # findings F2 / F3) must violate the 'only if invalid' clauses in the same model
-    cfg = write_cfg("C08legacyD9.cfg", {"LegacyUnwrap": "FALSE", "LegacyImsaak": "FALSE", "LegacyImsaakFlag": "FALSE", "LegacyLateInt": "TRUE",
+    cfg = write_cfg("C08legacyD9.cfg", {"LegacyUnwrap": "FALSE", "LegacyImsaak": "FALSE", "LegacyImsaakFlag": "FALSE", "LegacyLateInt": "TRUE", "LegacyIntFlag": "FALSE",
                                         "Roundings": "{0}", "FajrOffsets": "{0}", "NegOffsets": "FALSE"}, ["InvalidKeepsValid"])
     rep.add_tlc(tlc_must_fail("PrayerDay", cfg, expect="InvalidKeepsValid", workers=6, heap="6g"))
-    cfg = write_cfg("C08legacyD9b.cfg", {"LegacyUnwrap": "FALSE", "LegacyImsaak": "FALSE", "LegacyImsaakFlag": "FALSE", "LegacyLateInt": "TRUE",
+    cfg = write_cfg("C08legacyD9b.cfg", {"LegacyUnwrap": "FALSE", "LegacyImsaak": "FALSE", "LegacyImsaakFlag": "FALSE", "LegacyLateInt": "TRUE", "LegacyIntFlag": "FALSE",
                                          "Roundings": "{0}", "FajrOffsets": "{0}", "NegOffsets": "FALSE"}, ["IdentityWhenAllValid"])
     rep.add_tlc(tlc_must_fail("PrayerDay", cfg, expect="IdentityWhenAllValid", workers=6, heap="6g"))
+    # vacuity: the pre-fix flag rule of adj_for_int (D10) must violate the flag clause
+    cfg = write_cfg("C08legacyD10.cfg", {"LegacyUnwrap": "FALSE", "LegacyImsaak": "FALSE", "LegacyImsaakFlag": "FALSE", "LegacyLateInt": "FALSE",
+                                         "LegacyIntFlag": "TRUE", "Roundings": "{0}", "FajrOffsets": "{0}", "NegOffsets": "FALSE"}, ["UnflaggedIsConventional"])
+    rep.add_tlc(tlc_must_fail("PrayerDay", cfg, expect="UnflaggedIsConventional", workers=6, heap="6g"))
     # recorded events of the pre-fix code of both shapes (fixtures/) must be rejected by the trace specification
     fx = os.path.join(VERIF, "fixtures", "c08_known_f2_f3.ndjson")
     nfx = sum(1 for _ in open(fx))
@@ -39,5 +43,5 @@ def run(tier, seed, replay=None):
     for i in (0, len(events) // 3, len(events) // 2):
         rep.sample(events[i])
     rep.assumptions = ["interval-consuming policies (half-of-night, minutes-from-maghrib 'invalid') are run with angle-based methods only, as the property quantifies",
-                       "substitute latitudes within [-60, 60]"]
+                       "substitute latitudes anywhere in [-90, 90] (one sixth of the calls beyond +-60, plus a stratum where the substitute latitude lies in the band in which the Sun sets but does not reach 0 degrees)"]
     return rep.finish()
